@@ -510,6 +510,9 @@ class Client:
         except ssl.SSLError as e:
             raise Error("SSL error: %s" % str(e))
         self.sock = nsock
+        # bytes received in clear text after the STARTTLS reply are not part
+        # of the encrypted session
+        self.__read_buffer = b""
         self.__capabilities = {}
         self.__get_capabilities()
         return True
